@@ -23,6 +23,8 @@ EXPECT = {
  ('4284048', 1): [('MUTATOR-ERR', 'C26', 'MUTATOR-ERR/ingest.(ingestedYAML).Apply#5')],
  ('f8e960c', 1): [('DIVISOR-POSITIVE', 'C23', 'DIVISOR-POSITIVE/api/functions.divide#1')],
  ('6ba81dd', 1): [('GEOJSON-TYPES', 'C32', 'GEOJSON-TYPES/geojson#MultiLineString')],
+ ('b559a96', 1): [('ESCAPE-LEX', 'C20', 'ESCAPE-LEX/api.EscapeTagValue#8')],
+ ('d834352', 1): [('YAML-NATIVE', 'C18', 'YAML-NATIVE/b6.(Expression).MarshalYAML#StringExpression')],
  ('0b184d3', 1): None,  # covered by mutants/RESTORE.json
  ('0b184d3', 2): None,
  ('5adedaa', 1): [('STOP-AFTER-ERROR', 'C28', 'STOP-AFTER-ERROR/encoding.(*Uint64Map).EachItem#1'), ('ERR-RETURNED', 'C28', 'ERR-RETURNED/encoding.(*Uint64Map).EachItem#1')],
